@@ -33,6 +33,9 @@ enum Task {
     /// the crate's modules first): its items, its diagnostics and the Sierra of its first free function.  This is
     /// the query pattern of an IDE opening one file; it interns the module's items before those of its siblings.
     ModuleFirst(usize),
+    /// as ModuleFirst, but the Sierra of the module's LAST free function: its callees are interned in call
+    /// order, the reverse of the source order for helpers defined above their user
+    ModuleLast(usize),
 }
 
 const UNRELATED: &[&str] = &[
@@ -46,11 +49,20 @@ struct Project {
     path: Option<&'static str>,
 }
 
-const PROJECTS: &[Project] = &[Project { name: "examples", path: Some("/repo/examples") }, Project { name: "handwritten-batch", path: None }, Project { name: "bug_samples", path: Some("/repo/tests/bug_samples") }];
+const PROJECTS: &[Project] = &[
+    Project { name: "examples", path: Some("/repo/examples") },
+    Project { name: "handwritten-batch", path: None },
+    Project { name: "recursion-cycles", path: None },
+    Project { name: "bug_samples", path: Some("/repo/tests/bug_samples") },
+];
+
+/// Recursion cycles of two and three functions and a last function that reaches them "from the far end".
+const RECURSION_CYCLES: &str = "mod other {\n    pub fn id(a: u8) -> u8 { a }\n}\nmod mrec {\n    pub fn f3(a: u8) -> u8 { if a == 0 { 0 } else { g3(a - 1) + 1 } }\n    pub fn g3(a: u8) -> u8 { if a == 0 { 1 } else { h3(a - 1) + 2 } }\n    pub fn h3(a: u8) -> u8 { if a == 0 { 2 } else { f3(a - 1) + 3 } }\n    pub fn ev(a: u8) -> bool { if a == 0 { true } else { od(a - 1) } }\n    pub fn od(a: u8) -> bool { if a == 0 { false } else { ev(a - 1) } }\n    pub fn zz_last(a: u8) -> u8 { h3(a) + if od(a) { 1 } else { 0 } }\n}\n";
 
 fn load(db: &mut RootDatabase, p: &Project) -> Option<Vec<CrateInput>> {
     match p.path {
         Some(path) => setup_project(db, Path::new(path)).ok(),
+        None if p.name == "recursion-cycles" => Some(vec![set_src(db, "cycles", RECURSION_CYCLES)]),
         None => {
             // all hand-written programs in one crate, each in its own module
             let mut src = String::new();
@@ -92,7 +104,7 @@ fn run_task(db: &mut RootDatabase, inputs: &[CrateInput], t: &Task, on_thread: b
             Task::WholeProgram => {
                 let _ = db.get_sierra_program(ids);
             }
-            Task::ModuleFirst(k) => {
+            Task::ModuleFirst(k) | Task::ModuleLast(k) => {
                 use cairo_lang_defs::db::DefsGroup;
                 use cairo_lang_defs::ids::ModuleId;
                 use cairo_lang_lowering::ids::ConcreteFunctionWithBodyId;
@@ -103,7 +115,8 @@ fn run_task(db: &mut RootDatabase, inputs: &[CrateInput], t: &Task, on_thread: b
                             let m = ModuleId::Submodule(*sub);
                             let _ = db.module_semantic_diagnostics(m);
                             if let Ok(fs) = db.module_free_functions_ids(m) {
-                                if let Some(f) = fs.first().and_then(|f| ConcreteFunctionWithBodyId::from_no_generics_free(db, *f)) {
+                                let pick = if matches!(t, Task::ModuleLast(_)) { fs.last() } else { fs.first() };
+                                if let Some(f) = pick.and_then(|f| ConcreteFunctionWithBodyId::from_no_generics_free(db, *f)) {
                                     let _ = db.function_with_body_sierra(f);
                                 }
                             }
@@ -145,7 +158,7 @@ pub fn fresh_main(idx: usize) {
 fn run_all(ctx: &mut Ctx) {
     let tier = ctx.tier;
     let depth = tier.pick(2, 3);
-    let nprojects = tier.pick(2, PROJECTS.len());
+    let nprojects = tier.pick(3, PROJECTS.len());
     // "identical on every run": the fork-snapshot children below all inherit one process image, including the
     // per-process keys of std's RandomState, so iteration-order leaks of a std HashMap would be invisible to
     // them.  Each project is therefore also compiled in several fresh processes (own hasher keys, different
@@ -238,6 +251,7 @@ fn run_all(ctx: &mut Ctx) {
         let mut tasks: Vec<Task> = (0..nf_tasks).map(|i| Task::Sierra(i * nfuncs / nf_tasks.max(1))).collect();
         tasks.push(Task::ModuleFirst(0));
         tasks.push(Task::ModuleFirst(1));
+        tasks.push(Task::ModuleLast(0));
         tasks.push(Task::DiagMain);
         tasks.push(Task::WholeProgram);
         tasks.push(Task::Unrelated(0));
@@ -341,7 +355,7 @@ fn run_all(ctx: &mut Ctx) {
                                         let which = which.copied().unwrap_or("outcome");
                                         let hist: Vec<String> = rec_["history"].as_array().map(|h| h.iter().map(|e| format!("{:?}{}", tasks[e[0].as_u64().unwrap() as usize], if e[1].as_bool().unwrap() { "@thread" } else { "" })).collect()).unwrap_or_default();
                                         ctx.violation(
-                                            format!("output-depends-on-query-history:{which}"),
+                                            format!("output-depends-on-query-history:{which}:{}", p.name),
                                             format!("after first executing {hist:?} the {which} of project {} differ from a compilation with no prior queries", p.name),
                                             json!({"project":p.name,"history":hist,"baseline":base_art,"observed":art}),
                                         );
@@ -396,7 +410,7 @@ fn run_all(ctx: &mut Ctx) {
 pub static C12: CheckDef = CheckDef {
     id: "C12",
     level: "model_checking",
-    rule: "(0) every project compiled in 2 (thorough 6) fresh processes - own std RandomState keys, rayon pools of 1/2/3/4/16 threads - must give byte-identical artefacts (the fork-snapshot children below share one process image and would not see a hash-iteration-order leak). (1) Model: a schedule is abstracted to the order in which top-level queries first execute (tracked queries run on exactly one thread; the schedule-dependent state is which queries ran before and the first-come order of interned ids) and the thread each runs on. Task alphabet per project: the last and the last-but-one submodule of the crate opened first through its parent only (items, diagnostics, Sierra of its first function - the IDE pattern, which interns a module's items before its siblings'); function_with_body_sierra of k functions spread over the crate (quick 6, thorough 10), all diagnostics of the project, the whole Sierra program, and diagnostics+Sierra of two unrelated crates added to the same database. Enumerated: EVERY sequence of <=2 (thorough <=3) distinct tasks x {main thread, a second OS thread on a database snapshot} per task, by fork-snapshot DFS on the real RootDatabase (each node is a copy-on-write process image), for projects examples/ and a 24-module crate of hand-written programs (thorough: + tests/bug_samples). Oracle: after every history the diagnostics text, Sierra with debug names, canonical Sierra and CASM text are byte-identical (Sierra printed with raw salsa intern ids is first-come by design and is not part of the property) (hash + length) to the empty-history baseline. states/transitions = histories executed; traces_validated_against_impl = all of them. Auxiliary, sampled, not deciding: compile_prepared_db_program_artifact under rayon pools of 1/2/4/16 threads must agree across runs and across pool sizes (maxs.rayon_hash_*).",
+    rule: "(0) every project compiled in 2 (thorough 6) fresh processes - own std RandomState keys, rayon pools of 1/2/3/4/16 threads - must give byte-identical artefacts (the fork-snapshot children below share one process image and would not see a hash-iteration-order leak); the 20 contracts of crates/cairo-lang-starknet/cairo_level_tests compiled by ONE Starknet compile_prepared_db call in fresh databases under rayon pools of 1 / 8 / 8 (thorough + 3, 16, 2) threads: the (contract, class hash) lists must be equal. (1) Model: a schedule is abstracted to the order in which top-level queries first execute (tracked queries run on exactly one thread; the schedule-dependent state is which queries ran before and the first-come order of interned ids) and the thread each runs on. Task alphabet per project: the last and the last-but-one submodule of the crate opened first through its parent only (items, diagnostics, Sierra of its first function - the IDE pattern, which interns a module's items before its siblings'); function_with_body_sierra of k functions spread over the crate (quick 6, thorough 10), all diagnostics of the project, the whole Sierra program, and diagnostics+Sierra of two unrelated crates added to the same database. Enumerated: EVERY sequence of <=2 (thorough <=3) distinct tasks x {main thread, a second OS thread on a database snapshot} per task, by fork-snapshot DFS on the real RootDatabase (each node is a copy-on-write process image), for projects examples/ and a 24-module crate of hand-written programs (thorough: + tests/bug_samples). Oracle: after every history the diagnostics text, Sierra with debug names, canonical Sierra and CASM text are byte-identical (Sierra printed with raw salsa intern ids is first-come by design and is not part of the property) (hash + length) to the empty-history baseline. states/transitions = histories executed; traces_validated_against_impl = all of them. Auxiliary, sampled, not deciding: compile_prepared_db_program_artifact under rayon pools of 1/2/4/16 threads must agree across runs and across pool sizes (maxs.rayon_hash_*).",
     assumptions: &["no preemption inside a query is explored (salsa-under-shuttle is infeasible here: see DESIGN §1)", "a bug needing an interleaving finer than whole top-level queries is outside the bound"],
     run: run_all,
     stack_mb: 64,
@@ -407,3 +421,31 @@ pub static C12: CheckDef = CheckDef {
 
 #[allow(dead_code)]
 fn _t(_: Tier) {}
+
+/// Prints the first differing lines between the named Sierra of a fresh compilation and of one that first
+/// computed the Sierra of the last function of the last module.
+pub fn debug_diff() {
+    let p = &PROJECTS[2];
+    let text = |pre: bool| -> String {
+        let mut db = new_db(&Cfg::DEFAULT);
+        let inputs = load(&mut db, p).unwrap();
+        if pre {
+            run_task(&mut db, &inputs, &Task::ModuleLast(0), false);
+        }
+        let ids = CrateInput::into_crate_ids(&db, inputs.to_vec());
+        let prog = db.get_sierra_program(ids).unwrap();
+        replace_sierra_ids_in_program(&db, &prog.program).to_string()
+    };
+    let (a, b) = (text(false), text(true));
+    let mut n = 0;
+    for (x, y) in a.lines().zip(b.lines()) {
+        if x != y {
+            println!("- {x}\n+ {y}");
+            n += 1;
+            if n > 12 {
+                break;
+            }
+        }
+    }
+    println!("lines {} vs {}", a.lines().count(), b.lines().count());
+}
